@@ -99,6 +99,23 @@ package lease_set2
 //@   }
 //@ }
 
+// C08: nothing an accepted LeaseSet2 holds points into the caller's buffer
+// (encryption key data, signature, offline signature fields; the Destination
+// and the options mapping through their own contracts).
+//@ lemma C08_LS2NoAlias(data []byte) {
+//@   ls2, _, err := ReadLeaseSet2(data)
+//@   if err == nil {
+//@     assert(fresh(sig.SigData(ls2.signature)))
+//@     assert(ls2.offlineSignature == nil || (fresh(offline_signature.OffKey(ls2.offlineSignature)) && fresh(offline_signature.OffSig(ls2.offlineSignature))))
+//@     if len(ls2.encryptionKeys) >= 1 {
+//@       assert(fresh(ls2.encryptionKeys[0].KeyData))
+//@     }
+//@     if len(ls2.encryptionKeys) >= 2 {
+//@       assert(fresh(ls2.encryptionKeys[1].KeyData))
+//@     }
+//@   }
+//@ }
+
 // C09: the Destination inside an accepted LeaseSet2 obeys the key-type policy.
 //@ lemma C09_ReadLeaseSet2(data []byte) {
 //@   ls2, _, err := ReadLeaseSet2(data)
